@@ -76,6 +76,8 @@ STATEMENT_STATUS: Dict[str, str] = {
         "LZW, RunLength, PNG, TIFF and ASCIIHex models equals the definition regenerated from lzw.py / runlength.py / utils.py / ascii85.py; "
         "the three regex sources of ascii85.py are the patterns the hand model implements "
         "(nbitsAfter, pngNbytes, pngBpp are used by the model directly)",
+    "lzw_readbits_translated": "proved: one iteration of the model's LZW bit reader = the translated loop body of "
+        "LZWDecoder.readbits (shifts / masks as Python writes them), for every reader state",
     "predictor_translated": "proved: the model's predictor dispatch = the translated `pred == 1 / == 2 / >= 10 / else` chain of "
         "PDFStream._decode with the translated Colors / Columns / BitsPerComponent defaults",
     "stream_read_exact": "proved: whole stream branch (streamRead), Length = |payload|: rawdata = payload (any bytes) and the "
